@@ -3,6 +3,7 @@ package world
 import (
 	"fmt"
 	"github.com/trustbloc/sidetree-core-go/pkg/commitment"
+	"github.com/trustbloc/sidetree-core-go/pkg/versions/1_0/operationparser"
 	"math/rand"
 	"strings"
 	"time"
@@ -87,6 +88,33 @@ func IntakeDecorate(pc protocol.Client, pub []Placed, op *Op) (res string) {
 	}
 	return "rejected-earlier"
 }
+
+// IntakeDecorateUnpub is IntakeDecorate for a node that also keeps an unpublished-operation store (processor and
+// handler configured with it): operations accepted but not yet anchored, or anchored and not yet removed from it.
+func IntakeDecorateUnpub(pc protocol.Client, pub, unpub []Placed, op *Op) (res string) {
+	defer func() {
+		if r := recover(); r != nil {
+			res = "panic:" + fmt.Sprint(r)
+		}
+	}()
+	us := &sliceStore{ops: unpub}
+	proc := processor.New("verif", &sliceStore{ops: pub}, pc, processor.WithUnpublishedOperationStore(us))
+	dh := dochandler.New("did:sidetree", nil, pc, noopWriter{}, proc, NoopMetrics{},
+		dochandler.WithUnpublishedOperationStore(discardUnpub{}, []operation.Type{operation.TypeUpdate, operation.TypeRecover, operation.TypeDeactivate}))
+	_, err := dh.ProcessOperation(op.Request, 0)
+	switch {
+	case err == nil:
+		return "accepted"
+	case strings.Contains(err.Error(), "document has been deactivated"):
+		return "deactivated"
+	}
+	return "rejected-earlier"
+}
+
+type discardUnpub struct{}
+
+func (discardUnpub) Put(*operation.AnchoredOperation) error    { return nil }
+func (discardUnpub) Delete(*operation.AnchoredOperation) error { return nil }
 
 // DecorateCaseGallina renders an intake-after-deactivation case.
 func DecorateCaseGallina(tb *Table, md MDelta, pub []Placed, res string) string {
@@ -184,6 +212,16 @@ func IntakeRecommitCases(r *out.Run, g *out.Group, kp *KeyPool, thorough bool) {
 		_, err := ver.Parser.Parse("did:sidetree", req)
 		return err == nil, ""
 	}
+	verEarly := NewVersion("1.0-clock", p, VersionOpts{ParserOpts: []operationparser.Option{operationparser.WithAnchorTimeValidator(earlyClock{now: 3000})}})
+	parseEarly := func(req []byte) (ok bool, pan string) {
+		defer func() {
+			if rr := recover(); rr != nil {
+				pan = fmt.Sprint(rr)
+			}
+		}()
+		_, err := verEarly.Parser.Parse("did:sidetree", req)
+		return err == nil, ""
+	}
 	for ri, rk := range keys {
 		for ni, nk := range keys {
 			for _, nc := range codes {
@@ -192,6 +230,14 @@ func IntakeRecommitCases(r *out.Run, g *out.Group, kp *KeyPool, thorough bool) {
 					NextUpd: nk.Commitment(nc), DeltaID: 2}
 				op := Build(s)
 				ok, pan := parse(op.Request)
+				// the same request with an anchoring window that has not opened yet, at a node whose clock validator reports
+				// it as early: refused, whatever it commits to (an early request gets no lighter check)
+				se := s
+				se.From, se.Until = 1<<40, 0
+				if okE, panE := parseEarly(Build(se).Request); okE || panE != "" {
+					r.Direct = append(r.Direct, out.Direct{Oracle: "early_update_is_refused_at_intake", What: fmt.Sprintf("accepted=%v panic=%q", okE, panE),
+						Case: map[string]interface{}{"kind": "intake-update-early", "reveal_key": ri, "next_key": ni, "next_code": nc}})
+				}
 				r.Count("intake_update", fmt.Sprint(ok))
 				r.Add(g, emit.App("Build_kcase", "Update", emit.Z(int64(ri)), emit.Z(int64(ni)), emit.Z(int64(nc)), emit.Z(-1), emit.Z(0), emit.Bool(ok), emit.Bool(pan != "")),
 					map[string]interface{}{"kind": "intake-update", "reveal_key": ri, "next_key": ni, "next_code": nc, "accepted": ok, "panic": pan, "request": string(op.Request)},
@@ -314,3 +360,16 @@ func (s *IntakeSession) Submit(op *Op) (res string) {
 
 // SliceStore is an operation store (published or unpublished) over a fixed list of placed operations.
 func SliceStore(ps []Placed) *sliceStore { return &sliceStore{ops: ps} }
+
+// earlyClock is a server-time validator: a window that opens after "now" is early, one that closed before is expired.
+type earlyClock struct{ now int64 }
+
+func (c earlyClock) Validate(from, until int64) error {
+	if from > c.now {
+		return operationparser.ErrOperationEarly
+	}
+	if until != 0 && until < c.now {
+		return operationparser.ErrOperationExpired
+	}
+	return nil
+}
